@@ -153,6 +153,15 @@ mod imp {
                 world.insert_by_id(shred::ResourceId::new_with_dynamic_id::<shredh::parseqx::PSlot>(r as u64), shredh::parseqx::PSlot(1000 + r));
             }
         }
+        // the OPTIONAL static resources: nobody's setup inserts them; present only if the run says so
+        let (has_a, has_b) = *ctx.opt_present.lock().unwrap();
+        if has_a {
+            world.insert(shredh::parseqx::OptA(5));
+        }
+        if has_b {
+            world.insert(shredh::parseqx::OptB(6));
+        }
+        ctx.ev(json!({"ev":"world","opt_a":has_a,"opt_b":has_b}));
         let mut out = Vec::new();
         for s in scheds {
             let st = dispatch_controlled(&mut ps, &world, ctx, spec, pool, &pools.other, caller, s, tm);
@@ -192,6 +201,7 @@ mod imp {
                 max_leaves: rng.gen_range(1..=a.num("maxleaves", 24)),
                 n_res: rng.gen_range(1..=8),
                 p_conflict: a.num("pconflict", 0.25),
+                p_opt: a.num("popt", 0.12),
             };
             let mut spec = gen_shape(&mut rng, &cfg);
             assign_access(&mut rng, &mut spec, &cfg);
@@ -206,6 +216,7 @@ mod imp {
                     let threads = rng.gen_range(1..=8);
                     let caller = pick_caller(&mut rng);
                     let setups = *[1usize, 1, 1, 2, 0].choose(&mut rng).unwrap();
+                    *ctx.opt_present.lock().unwrap() = (rng.gen_bool(0.35), rng.gen_bool(0.35));
                     let k = rng.gen_range(1..=2);
                     let mut r2 = StdRng::seed_from_u64(rng.gen());
                     let mut r3 = StdRng::seed_from_u64(rng.gen());
@@ -410,7 +421,7 @@ mod imp {
             for _ in 0..variants {
                 run += 1;
                 let mut spec = TreeSpec(shape.clone());
-                let cfg = GenCfg { max_depth: 0, max_fan: 0, max_leaves: 0, n_res: rng.gen_range(1..=8), p_conflict: a.num("pconflict", 0.2) };
+                let cfg = GenCfg { max_depth: 0, max_fan: 0, max_leaves: 0, n_res: rng.gen_range(1..=8), p_conflict: a.num("pconflict", 0.2), p_opt: 0.0 };
                 assign_access(&mut rng, &mut spec, &cfg);
                 let ctx = PCtx::new();
                 let mut evs = vec![json!({"ev":"reset","run":run,"mode":"zoo","debug":cfg!(debug_assertions),"tree":spec})];
@@ -465,8 +476,8 @@ mod imp {
         let pools = Pools::new();
         let mut w = BufWriter::new(File::create(out).unwrap());
         let mut tot = Totals::default();
-        let leaf = |r: Vec<u32>, w: Vec<u32>| NodeSpec { kind: "leaf".into(), kids: vec![], r, w };
-        let inner = |kind: &str, kids: Vec<usize>| NodeSpec { kind: kind.into(), kids, r: vec![], w: vec![] };
+        let leaf = |r: Vec<u32>, w: Vec<u32>| NodeSpec { kind: "leaf".into(), kids: vec![], r, w, opt: String::new() };
+        let inner = |kind: &str, kids: Vec<usize>| NodeSpec { kind: kind.into(), kids, r: vec![], w: vec![], opt: String::new() };
         let mut sizes: Vec<u32> = vec![61, 62, 63, 64, 65, 66];
         sizes.push(rng.gen_range(67..=80));
         sizes.push(rng.gen_range(81..=98));
